@@ -67,8 +67,8 @@ pub enum Verdict {
     SpecViolation(String, &'static str),
 }
 
-pub type ImplFn = dyn Fn(&Case) -> String + Sync;
-pub type JudgeFn = dyn Fn(&Case, &str, &str) -> Verdict + Sync;
+pub type ImplFn<'a> = dyn Fn(&Case) -> String + Sync + 'a;
+pub type JudgeFn<'a> = dyn Fn(&Case, &str, &str) -> Verdict + Sync + 'a;
 
 #[derive(Clone, Debug)]
 pub struct Failure {
@@ -178,7 +178,7 @@ pub fn trunc(s: &str, n: usize) -> String {
 }
 
 /// implementation answers for all cases, in parallel, panics captured
-pub fn run_impl_all(cases: &[Case], f: &ImplFn) -> Vec<String> {
+pub fn run_impl_all(cases: &[Case], f: &ImplFn<'_>) -> Vec<String> {
     let n = cases.len();
     let nthreads = std::thread::available_parallelism()
         .map(|x| x.get())
@@ -215,8 +215,8 @@ pub fn run_section(
     model: &Model,
     section: &str,
     cases: Vec<Case>,
-    run_impl: &ImplFn,
-    judge: &JudgeFn,
+    run_impl: &ImplFn<'_>,
+    judge: &JudgeFn<'_>,
 ) {
     if cases.is_empty() {
         return;
@@ -329,8 +329,8 @@ pub fn shrink(
     impl_out: &str,
     model_out: &str,
     v: Verdict,
-    run_impl: &ImplFn,
-    judge: &JudgeFn,
+    run_impl: &ImplFn<'_>,
+    judge: &JudgeFn<'_>,
 ) -> (Case, String, String, Verdict) {
     let mut best = (c.clone(), impl_out.to_string(), model_out.to_string(), v);
     let mut rounds = 0;
